@@ -677,6 +677,28 @@ def do_env(ctx, rng, psi, vec, sites, kind, qt, case):
     if not close(fc, np.vdot(bra, ket)):
         ctx.violation('MPSEnvironment.full_contraction:wrong', 'got %r expected %r' % (fc, np.vdot(bra, ket)), case)
         return
+    # one-site fermionic operators (by name) between states of different parity: the bra lives in the sector of op|ket>
+    fnames = sorted(n for n in sites[0].opnames if not n.startswith('JW') and sites[0].op_needs_JW(n)
+                    and all(n in s_.opnames for s_ in sites))
+    if fnames and all(getattr(s_, 'charge_to_JW_parity', None) is not None for s_ in sites) and rng.random() < 0.9:  # (else a documented refusal)
+        fn = str(fnames[int(rng.integers(len(fnames)))])
+        chinfo = sites[0].leg.chinfo
+        qt2 = chinfo.make_valid(np.asarray(qt) + sites[0].get_op(fn).qtotal)
+        try:
+            phi2, w2 = second_state(rng, sites, [int(q) for q in qt2])
+        except Exception:
+            phi2 = None  # (empty sector)
+        if phi2 is not None and np.all(np.isfinite(w2)):
+            ctx.count('env.fermionic_one_site')
+            phi2.norm = c2
+            env2 = MPSEnvironment(phi2, psi)
+            got = np.asarray(env2.expectation_value(fn))
+            bra2 = w2.reshape(-1) * c2
+            exp = [np.vdot(bra2, dense.term_matrix(sites, [(fn, k)]) @ ket) for k in range(L)]
+            if got.shape != (L,) or any(not close(g, e) for g, e in zip(got, exp)):
+                ctx.violation('MPSEnvironment.expectation_value:fermionic-operator:wrong', 'op %s got %r expected <bra|c_i|ket> %r' %
+                              (fn, got.tolist(), [complex(e) for e in exp]), case)
+                return
     name = opnames(sites[0], rng, 'bosonic')
     if any(name not in s.opnames for s in sites):
         raise _Skip()
